@@ -6,6 +6,7 @@ import CSD.Model.SourceText
 import CSD.Lemmas.PFCMeta
 import CSD.Lemmas.RPDAC2
 import CSD.Lemmas.FM11
+import CSD.Lemmas.RPFC4
 
 namespace CSD.Props.C03
 open CSD CSD.PFC
@@ -152,5 +153,26 @@ theorem fm_models_match_source_text :
     Generated.body_FMINDEX_locateSubstr = SourceText.body_FMINDEX_locateSubstr ∧
     Generated.body_FMINDEX_build_ssa = SourceText.body_FMINDEX_build_ssa :=
   ⟨rfl, rfl, rfl, rfl, rfl, rfl, rfl, rfl, rfl, rfl, rfl, rfl⟩
+
+
+/-! ### RPFC -/
+
+/-- `extract(i)` of RPFC is the `i`-th smallest member, whatever grammar stores the buckets. -/
+theorem rpfc_extract_is_ith_smallest {S : List Str} {d : RPFC.D} (hst : RPFC.Stores S d) (i : Nat) (h1 : 1 ≤ i)
+    (h2 : i ≤ S.length) : RPFC.extract d i = some (S[i - 1]?) := RPFC.extract_stores hst i h1 h2
+
+/-- The RPFC models were written against the current text of the C++ functions they mirror. -/
+theorem rpfc_models_match_source_text :
+    Generated.body_RPFC_decodeString = SourceText.body_RPFC_decodeString ∧
+    Generated.body_RPFC_decodeSymbol = SourceText.body_RPFC_decodeSymbol ∧
+    Generated.body_RPFC_getHeader = SourceText.body_RPFC_getHeader ∧
+    Generated.body_RPFC_locateBucket = SourceText.body_RPFC_locateBucket ∧
+    Generated.body_RPFC_locate = SourceText.body_RPFC_locate ∧
+    Generated.body_RPFC_extract = SourceText.body_RPFC_extract ∧
+    Generated.body_RPFC_locatePrefix = SourceText.body_RPFC_locatePrefix ∧
+    Generated.body_RPFC_locateBoundaryBuckets = SourceText.body_RPFC_locateBoundaryBuckets ∧
+    Generated.body_RPFC_searchPrefix = SourceText.body_RPFC_searchPrefix ∧
+    Generated.body_RPFC_searchDistinctPrefix = SourceText.body_RPFC_searchDistinctPrefix :=
+  ⟨rfl, rfl, rfl, rfl, rfl, rfl, rfl, rfl, rfl, rfl⟩
 
 end CSD.Props.C03
